@@ -418,6 +418,6 @@ def sanitizer_signature(stderr_tail):
             continue
         q = loc.find("/src/")
         lib.append("%s@%s" % (fn, loc[q + 1:] if q >= 0 else os.path.basename(loc)))
-        if len(lib) >= 4:
+        if len(lib) >= 6:
             break
     return kind, lib
